@@ -57,14 +57,14 @@ class JobResult:
 
 
 def run_sym(name, harness, *, timeout_ms=20000, max_paths=200000, seed=0, deadline_s=None,
-            require_checks=(), max_failures=12, expect_paths_min=1):
+            require_checks=(), max_failures=12, expect_paths_min=1, logic=None):
     """Explore `harness` symbolically; replay each counterexample concretely (same harness,
     real values, real libraries); return a JobResult."""
     from engine.symrun.core import Explorer, Concrete
     t0 = time.time()
     res = JobResult(name)
     ex = Explorer(query_timeout_ms=timeout_ms, max_paths=max_paths, seed=seed,
-                  stop_at_first=False, max_failures=max_failures,
+                  stop_at_first=False, max_failures=max_failures, logic=logic,
                   deadline=(t0 + deadline_s) if deadline_s else None)
     ex.explore(harness)
     res.stats = ex.stats.to_json()
